@@ -9,6 +9,7 @@ import (
 	"crypto/sha256"
 	"fmt"
 	"strings"
+	"time"
 
 	"verifharness/hx"
 )
@@ -159,6 +160,9 @@ func runCase(r *hx.Run, sub uint64, ops []string) {
 			if (kind == "pq" || kind == "gh") && len(f) > 3 {
 				r.Count("cmpkind:" + kind + "." + f[3])
 			}
+			if (kind == "queue" || kind == "ring") && len(f) > 2 {
+				r.Count("cfg:" + kind + ".cap=" + f[2])
+			}
 			if p := hx.Safely(func() { w = newWorld(kind, f[2:]) }); p != "" {
 				ans = "panic"
 			} else if w != nil {
@@ -255,7 +259,8 @@ func main() {
 	r.Finish()
 }
 
-// tpqCase writes a timed-queue history; "@k" stands for the k-th near instant, "#i" for farInstants[i].
+// tpqCase writes a timed-queue history; "@k" stands for the k-th near instant, "#i" for farInstants[i], "~k" for
+// k nanoseconds after the epoch (instants inside one second).
 func tpqCase(dir string, ops ...string) []string {
 	out := []string{"tpq new " + dir}
 	for _, op := range ops {
@@ -266,6 +271,8 @@ func tpqCase(dir string, ops ...string) []string {
 				f[i] = instantString(nearInstant(atoi(tok[1:])))
 			case strings.HasPrefix(tok, "#"):
 				f[i] = instantString(farInstants[atoi(tok[1:])])
+			case strings.HasPrefix(tok, "~"):
+				f[i] = instantString(epoch.Add(time.Duration(atoi(tok[1:]))))
 			}
 		}
 		out = append(out, "tpq "+strings.Join(f, " "))
@@ -314,6 +321,9 @@ var corpus = [][]string{
 	tpqCase("desc", "push 0 @2 0", "popuntil @2 1", "size", "push 1 @2 2", "push 2 @2 4", "push 3 @1 3", "popuntil @2 5", "size", "popuntil @1 0", "isempty"),
 	tpqCase("asc", "push 0 @2 3", "popuntil @2 4", "size", "push 1 @2 5", "push 2 @2 1", "push 3 @3 0", "popuntil @2 2", "size", "popuntil @3 4", "isempty"),
 	tpqCase("desc", "push 0 @0 0", "push 1 @0 1", "push 2 @0 2", "push 3 @0 3", "push 4 @0 4", "push 5 @0 5", "push 6 @-1 1", "push 7 @1 4", "pop", "popuntil @0 3", "popall"),
+	// instants 1 ns apart inside one second
+	tpqCase("asc", "push 0 ~3 0", "push 1 ~1 1", "push 2 ~2 2", "push 3 ~0 3", "peek", "popuntil ~1 4", "pop", "popall"),
+	tpqCase("desc", "push 0 ~3 5", "push 1 ~1 0", "push 2 ~2 1", "push 3 ~0 2", "peek", "popuntil ~2 3", "pop", "popall"),
 	// far instants (outside what UnixNano can represent): zero time, 1000, 1677, the ends of the int64 range, 2263, 9999, "never"
 	tpqCase("asc", "push 0 #8 0", "push 1 @2 1", "push 2 #0 2", "push 3 #10 3", "push 4 #9 0", "push 5 #1 1", "push 6 #11 2", "push 7 #2 3", "peek", "popuntil @3 0", "pop", "pop", "popuntil #10 1", "popall"),
 	tpqCase("desc", "push 0 #8 0", "push 1 @2 1", "push 2 #0 2", "push 3 #10 3", "push 4 #9 0", "push 5 #1 1", "push 6 #11 2", "push 7 #2 3", "peek", "popuntil #8 2", "pop", "pop", "popuntil #0 1", "popall"),
